@@ -342,7 +342,8 @@ func (p *Parser) parseComparisonExpression() (ast.Expression, error) {
 			}
 			p.advance() // Consume )
 
-			if quantifier == "ANY" {
+			// the keyword is recognised whatever its letter case (= Any (...) used to be read as ALL)
+			if strings.EqualFold(quantifier, "ANY") {
 				return &ast.AnyExpression{
 					Expr:     left,
 					Operator: operator,
